@@ -63,6 +63,8 @@ type Server struct {
 	httpServer    *http.Server
 	referrerCache *cache.Cache[referrerKey, referrerResponses]
 	rateLimit     *cache.Cache[string, *rateLimitEntry]
+	// referrerMu serializes updates to referrers responses, they are a read-modify-write of the response and the index
+	referrerMu sync.Mutex
 }
 
 type rateLimitEntry struct {
